@@ -13,18 +13,15 @@ for every minute of every day the iterated schedule has the kind the declarative
 PROVED (refinement built bottom-up in OH/Proofs/EvalSpec*.lean; standard foundations only: propext, Classical.choice, Quot.sound).
 The only hypotheses are `ParserWF e`, the day range 1900–9999 (outside: `C01_model_outside`,
 `C01_spec_outside`) and a decidable class of dated ranges (which implies `exprDefined e`):
- * `C01_schedule_refines_spec_window` (and `'`, pointwise conclusion): dated ranges in the DECIDABLE class
-   `exprDatedSafe e d` — day offsets within ±100 000 days, defined meaning, and, for a range whose two
-   bounds carry no year, the implementation's pairing window `y-2 … y+2` is ADEQUATE for the day
-   (`windowOKb`: shifted instances increase from year to year, `d < S(y+2)`, `d ≤ E(y+3)`, and some start
-   of `y-2 … y+1` is at or before `d` and after `E(y-3)`) or every shifted instance stays in the year it is
-   projected on; bounds with a year:
-   no further condition (yearless end after a start with a year: year-locality of the end);
- * `C01_schedule_refines_spec_plain`: for EVERY day of 1900–9999 under the RULE-LEVEL decidable class
-   `exprDatedPlain e`: day offsets within ±100 000 days, defined meaning; bounds with a year: nothing more;
-   two yearless bounds: no offsets (or Easter ± ≤ 70 days, any weekday shift), or — not a single day — the
-   shifted bounds stay within about a year of their nominal year and occurrences are shorter than about a
-   year (`OH.Proofs.EvalSpec.datedWideB`, e.g. `Jan 1 -10 days-Dec 25`, `Dec 31 +100 days-Jan 1 +50 days`);
+ * `C01_schedule_refines_spec_plain` (every day of 1900–9999) and `C01_schedule_refines_spec_window` (and `'`,
+   pointwise conclusion): dated ranges in the RULE-LEVEL decidable class `exprDatedPlain e` (= `exprDatedSafe e d`
+   for every `d`): both day offsets within ±100 000 days and a defined meaning (not "no year … year") —
+   NOTHING ELSE: bounds with or without a year, single days, any weekday shift, shifts of several years,
+   occurrences longer than a year, offsets that differ by years (`Jan 01 +400 days-Jan 10 +770 days`).
+   This is what centring the pairing windows of `MonthdayRange::Date` on the year of `d - day offset`
+   (`OH.Model.yearBeforeOffset`) buys: `OH.Proofs.EvalSpec.dated_window_eq` (two yearless bounds, any two runs
+   of years reaching two years below and above the centres), `single_window_iff` (single day, years `c-1 … c+8`),
+   `dated_year_yearless_eq` (yearless end searched around the year of `start - end offset`);
  * `C01_schedule_refines_spec_nodated`: no side condition when there is no dated range — every year,
    week, month, weekday (nth, any offset, wrapping) and holiday selector, time spans incl. events and
    spans past midnight, the rule fold (normal / additional / fallback, closed rules, spill from yesterday),
@@ -34,8 +31,10 @@ The only hypotheses are `ParserWF e`, the day range 1900–9999 (outside: `C01_m
  * `C04_schedule_total`: `daySchedule` never fails under `ParserWF` alone (every day, context, offset).
 No offset-scope hypothesis is left: the specification shifts days with the same saturating shift as the
 (repaired) code, see `OH.Spec.shift`, `OH.Spec.weekdayOk` and the history note below.
-NOT proved (rests on oracle + correspondence): yearless dated ranges on days where the window is not
-adequate (none is known to fail), day offsets beyond ±100 000 days on dated ranges.
+NOT proved (rests on oracle + correspondence): day offsets beyond ±100 000 days on dated ranges (up to about
+±95 000 000 days nothing is known to fail; beyond, where `d - offset` is not representable and the code's
+shifts saturate, the filter is known to disagree with the saturating specification on some shapes — no
+panic, and the hint stays sound: brute force on the model).
 Older clauses kept below:
  * outside 1900-01-01 … 9999-12-31 both the model and the specification say closed;
  * the day schedule does not depend on the interval-size bound, and two contexts with the same
@@ -174,17 +173,16 @@ theorem C01_schedule_refines_spec_nodated (ctx : Ctx) (e : Expr) (d : Int) (hwf 
 
 open OH.Proofs.EvalSpec in
 /-- every dated range of the expression is in the class `datedSafe` on day `d` and on the day before
-(decidable; see `OH.Proofs.EvalSpec.datedSafe`, `windowOKb`) -/
+(decidable; see `OH.Proofs.EvalSpec.datedSafe`: the class no longer depends on the day, `exprDatedSafe e d`
+is `exprDatedPlain e`, see `exprDatedSafe_iff_plain`) -/
 def exprDatedSafe (e : Expr) (d : Int) : Bool :=
   e.all (fun r => r.day.monthday.all (fun m => match m with
     | .date a so b eo => datedSafe a so b eo d && datedSafe a so b eo (d - 1)
     | .month .. => true))
 
 open OH.Proofs.EvalSpec in
-/-- rule-level class, no reference to the day (see `OH.Proofs.EvalSpec.datedPlain`, `datedWideB`): day
-offsets within ±100 000 days; the range has a defined meaning; a bound with a year: nothing more; two
-bounds without a year: no offset (or Easter shifted by at most 70 days, weekday shift allowed), or — not a
-single day — shifted by less than about a year with occurrences shorter than about a year -/
+/-- rule-level class, no reference to the day (see `OH.Proofs.EvalSpec.datedPlain`): day offsets within
+±100 000 days; the range has a defined meaning.  Nothing else. -/
 def exprDatedPlain (e : Expr) : Bool :=
   e.all (fun r => r.day.monthday.all (fun m => match m with
     | .date a so b eo => datedPlain a so b eo
@@ -221,26 +219,35 @@ theorem exprDefined_of_safe (e : Expr) (d : Int) (h : exprDatedSafe e d = true) 
   | date a so b eo =>
     simp only [Bool.and_eq_true] at this
     have h1 := this.1
-    unfold datedSafe at h1
+    unfold datedSafe datedPlain at h1
     simp only [Bool.and_eq_true] at h1
-    have h2 := h1.2
-    unfold datedDefined
-    cases hs : specYear a <;> cases he : specYear b <;> simp [hs, he] at h2 ⊢
+    exact h1.2
 
 open OH.Proofs.EvalSpec in
-theorem exprDatedSafe_of_plain (e : Expr) (d : Int) (hwf : ParserWF e = true)
-    (h1 : dateStart ≤ d) (h2 : d < dateEnd) (h : exprDatedPlain e = true) : exprDatedSafe e d = true := by
+theorem exprDatedSafe_of_plain (e : Expr) (d : Int) (h : exprDatedPlain e = true) : exprDatedSafe e d = true := by
   simp only [exprDatedPlain, List.all_eq_true] at h
   simp only [exprDatedSafe, List.all_eq_true]
   intro r hr m hm
   have hp := h r hr m hm
-  have hmw := wf_of_parserWF hwf hr hm
   cases m with
   | month lo hi yr => rfl
   | date a so b eo =>
     simp only [Bool.and_eq_true]
-    exact ⟨datedSafe_of_plain a so b eo d hmw hp (by omega) h2,
-      datedSafe_of_plain a so b eo (d - 1) hmw hp (by omega) (by omega)⟩
+    exact ⟨datedSafe_of_plain a so b eo d hp, datedSafe_of_plain a so b eo (d - 1) hp⟩
+
+open OH.Proofs.EvalSpec in
+/-- the day-level class is the rule-level one: it no longer depends on the day -/
+theorem exprDatedSafe_iff_plain (e : Expr) (d : Int) : exprDatedSafe e d = true ↔ exprDatedPlain e = true := by
+  refine ⟨fun h => ?_, exprDatedSafe_of_plain e d⟩
+  simp only [exprDatedSafe, List.all_eq_true] at h
+  simp only [exprDatedPlain, List.all_eq_true]
+  intro r hr m hm
+  have := h r hr m hm
+  cases m with
+  | month lo hi yr => rfl
+  | date a so b eo =>
+    simp only [Bool.and_eq_true] at this
+    exact this.1
 
 /-- C01 for every parsed expression and day of 1900–9999 in the decidable class `exprDatedSafe`:
 the iterated day schedule never fails and the run-time oracle `c01Holds` holds on it. -/
@@ -261,14 +268,14 @@ theorem C01_schedule_refines_spec_inyear (ctx : Ctx) (e : Expr) (d : Int) (hwf :
     ∃ rs, daySchedule ctx e d = .ok rs ∧ c01Holds ctx e d rs = true :=
   C01_schedule_refines_spec_window ctx e d hwf h1 h2 hds
 
-/-- C01 for every day of 1900–9999, for expressions in the RULE-LEVEL class `exprDatedPlain`
-(dated ranges without offsets — `Jan 10-Feb 20`, `Dec 24-Jan 2`, `Dec 25`, `Feb 29`, `2020 Dec 24-Jan 2`,
-`2024 easter-2024 Dec 31` — Easter with offsets up to 70 days, any offset ≤ 100 000 days on a bound
-that carries a year) -/
+/-- C01 for every day of 1900–9999, for expressions in the RULE-LEVEL class `exprDatedPlain`: every dated
+range with a defined meaning whose day offsets are within ±100 000 days (`Jan 10-Feb 20`, `Dec 24-Jan 2`,
+`Feb 29`, `2020 Dec 24-Jan 2`, `easter -47 days-easter +60 days`, `Jan 1 -10 days-Dec 25`,
+`Jan 01 +400 days-Jan 10 +770 days`, `Feb 29 -1000 days-Feb 29 +10 days`, `2020 Jan 1-Feb 1 +800 days`) -/
 theorem C01_schedule_refines_spec_plain (ctx : Ctx) (e : Expr) (d : Int) (hwf : ParserWF e = true)
     (h1 : dateStart ≤ d) (h2 : d < dateEnd) (hpl : exprDatedPlain e = true) :
     ∃ rs, daySchedule ctx e d = .ok rs ∧ c01Holds ctx e d rs = true :=
-  C01_schedule_refines_spec_window ctx e d hwf h1 h2 (exprDatedSafe_of_plain e d hwf h1 h2 hpl)
+  C01_schedule_refines_spec_window ctx e d hwf h1 h2 (exprDatedSafe_of_plain e d hpl)
 
 /-! ## C04 clause: the day schedule is total -/
 
@@ -292,6 +299,10 @@ theorem C04_schedule_total (ctx : Ctx) (e : Expr) (d : Int) (hwf : ParserWF e = 
    follows): `Jan 1 -10 days-Dec 25` was open on 2023-12-28 and `Dec 31 +100 days-Jan 1 +50 days` closed on
    2024-01-15 — an OFFSET moved a bound out of the year it was projected on; neither was in the class then
    called D20.  Both days now agree with the specification and are inside `exprDatedSafe` (checked below).
+   A shift of MORE than a year still left that fixed window (`Jan 01 +400 days-Jan 10 +770 days` open on
+   2020-01-01 where the semantics say closed; former open finding `dated-shift-over-a-year`).  The windows are
+   now centred on the year of `d - day offset` of each bound (`yearBeforeOffset`), five years each as before:
+   the class lost every condition on the size of the shift (checked on the witness below).
 2. Saturated day shifts.  With offsets of about 97 million days or more the shifted day is not representable
    by chrono; the (repaired) code pins it at `NaiveDate::MIN`/`MAX` (`add_days_saturating`).  An earlier version
    of the specification shifted exactly, and the statement then failed on `Mo[1-5] +97000000 days`
@@ -348,11 +359,37 @@ example :
       [TimeSpan.fullDay], .open, .normal, []⟩]
     ParserWF e = true ∧ exprDatedPlain e = true ∧ exprDatedSafe e 739250 = true := by decide +kernel
 
-/-- a shift of more than two years is outside the rule-level class (`Jan 1 +800 days-Jan 5 +800 days`), yet inside the
-day-level one on a given day -/
+/-- shifts of more than a year, offsets that differ by a year, single days longer than a year, a yearless end
+two years after a start with a year: all inside the rule-level class (`Jan 1 +800 days-Jan 5 +800 days`,
+`Jan 01 +400 days-Jan 10 +770 days`, `Feb 29 -1000 days-Feb 29 +10 days`, `2020 Jan 1-Feb 1 +800 days`,
+`Jan 01 -100000 days-Dec 31 +100000 days`) -/
 example :
-    let e : Expr := [⟨⟨[], [.date (.fixed none 1 1) ⟨.none, 800⟩ (.fixed none 1 5) ⟨.none, 800⟩], [], []⟩,
+    let e : Expr := [⟨⟨[], [.date (.fixed none 1 1) ⟨.none, 800⟩ (.fixed none 1 5) ⟨.none, 800⟩,
+                            .date (.fixed none 1 1) ⟨.none, 400⟩ (.fixed none 1 10) ⟨.none, 770⟩,
+                            .date (.fixed none 2 29) ⟨.none, -1000⟩ (.fixed none 2 29) ⟨.none, 10⟩,
+                            .date (.fixed (some 2020) 1 1) ⟨.none, 0⟩ (.fixed none 2 1) ⟨.none, 800⟩,
+                            .date (.fixed none 1 1) ⟨.prev 0, -100000⟩ (.fixed none 12 31) ⟨.next 6, 100000⟩], [], []⟩,
       [TimeSpan.fullDay], .open, .normal, []⟩]
-    exprDatedPlain e = false ∧ exprDatedSafe e 739250 = true := by decide +kernel
+    ParserWF e = true ∧ exprDatedPlain e = true := by decide +kernel
+
+/-- The witness of the former open finding `dated-shift-over-a-year`, `Jan 01 +400 days-Jan 10 +770 days` on
+2020-01-01 (day 737425): with the windows centred on the year of `d - offset` the filter says CLOSED, like the
+specification (with the windows `y-2 … y+2` around the day's year it said open); and open on 2020-02-10
+(737465), inside the occurrence 2020-02-05 … 2020-02-19. -/
+example :
+    let r : MonthdayRange := .date (.fixed none 1 1) ⟨.none, 400⟩ (.fixed none 1 10) ⟨.none, 770⟩
+    (match r.filter 737425 with | .ok b => b | .error _ => true) = false
+      ∧ datedOk (.fixed none 1 1) ⟨.none, 400⟩ (.fixed none 1 10) ⟨.none, 770⟩ 737425 = false
+      ∧ (match r.filter 737465 with | .ok b => b | .error _ => false) = true
+      ∧ datedOk (.fixed none 1 1) ⟨.none, 400⟩ (.fixed none 1 10) ⟨.none, 770⟩ 737465 = true := by
+  decide +kernel
+
+/-- … as an instance of the theorem: C01 holds for that expression on that day -/
+example :
+    let e : Expr := [⟨⟨[], [.date (.fixed none 1 1) ⟨.none, 400⟩ (.fixed none 1 10) ⟨.none, 770⟩], [], []⟩,
+      [TimeSpan.fullDay], .open, .normal, []⟩]
+    ∃ rs, daySchedule Ctx.default e 737425 = .ok rs ∧ c01Holds Ctx.default e 737425 rs = true :=
+  C01_schedule_refines_spec_plain Ctx.default _ 737425 (by decide +kernel) (by decide +kernel)
+    (by decide +kernel) (by decide +kernel)
 
 end OH.Props.C01
